@@ -439,6 +439,13 @@ func groupConstraintsIntoIntervals(constraints []constraint) ([]interval, error)
 
 	// Excludes are handled separately in the contains function, not as intervals
 
+	// VERS spec: when the bounds, in version order, alternate between lower and upper bounds
+	// (optional leading upper bound, lower/upper pairs, optional trailing lower bound), each
+	// of those pieces is one interval and the range is their union.
+	if alternating, ok := alternatingBoundIntervals(constraints); ok {
+		return append(intervals, alternating...), nil
+	}
+
 	// Handle range constraints (lower/upper bounds)
 	if len(lowerBounds) > 0 || len(upperBounds) > 0 {
 		// For VERS spec compliance, we need to analyze the constraint pattern:
@@ -522,6 +529,53 @@ func groupConstraintsIntoIntervals(constraints []constraint) ([]interval, error)
 	}
 
 	return intervals, nil
+}
+
+// alternatingBoundIntervals builds the intervals of a range whose bounds (taken in the given,
+// version-sorted order and ignoring '=' and '!=' constraints) strictly alternate between lower
+// and upper bounds, as the VERS specification requires of a valid range: a leading upper bound
+// is an interval open to the left, each lower bound pairs with the upper bound that follows it,
+// and a trailing lower bound is an interval open to the right. It reports false when there are
+// no bounds or when two bounds of the same direction are adjacent.
+func alternatingBoundIntervals(constraints []constraint) ([]interval, bool) {
+	var bounds []constraint
+	for _, c := range constraints {
+		switch c.operator {
+		case ">=", ">", "<=", "<":
+			bounds = append(bounds, c)
+		}
+	}
+	if len(bounds) == 0 {
+		return nil, false
+	}
+	isLower := func(c constraint) bool { return c.operator == ">=" || c.operator == ">" }
+	for i := 1; i < len(bounds); i++ {
+		if isLower(bounds[i]) == isLower(bounds[i-1]) {
+			return nil, false
+		}
+	}
+
+	var intervals []interval
+	i := 0
+	if !isLower(bounds[0]) {
+		intervals = append(intervals, interval{
+			upper:          bounds[0].version,
+			upperInclusive: bounds[0].operator == "<=",
+		})
+		i = 1
+	}
+	for ; i < len(bounds); i += 2 {
+		iv := interval{
+			lower:          bounds[i].version,
+			lowerInclusive: bounds[i].operator == ">=",
+		}
+		if i+1 < len(bounds) {
+			iv.upper = bounds[i+1].version
+			iv.upperInclusive = bounds[i+1].operator == "<="
+		}
+		intervals = append(intervals, iv)
+	}
+	return intervals, true
 }
 
 // shouldMergeConstraints determines whether constraints should be merged (most restrictive)
